@@ -101,6 +101,7 @@ theorem df_fields (crc : Nat) (bs : List Nat) (r : SerFields) (s : Rd)
   simp only [Rd.init] at hid hb1 hp1
   unfold hdrView
   rw [← hid]
+  unfold Message.dfBody at h
   split at h
   · -- DF0
     obtain ⟨_, _, h⟩ := bind_ok' h
